@@ -42,7 +42,27 @@ def build_dataset(shape: str, k: int):
     ds.PatientID = f"P{k}"
     ds.PatientName = "Test^Name"
     ds.QueryRetrieveLevel = "PATIENT"
-    if shape == "vrmix":
+    if shape == "deflatetail":
+        # search (with zlib alone) for a value that makes the deflated encoding even-length, ending in 00, with that byte needed
+        import zlib
+        from pydicom.filewriter import write_dataset
+        from pydicom.filebase import DicomBytesIO
+        import random
+        rng = random.Random(k)
+        for n in range(20000):
+            ds.StudyDescription = f"s{n}"
+            ds.ICCProfile = bytes(rng.randrange(256) for _ in range(12))
+            fp = DicomBytesIO()
+            fp.is_implicit_VR, fp.is_little_endian = False, True
+            write_dataset(fp, ds)
+            enc = fp.getvalue()
+            c = zlib.compressobj(wbits=-zlib.MAX_WBITS)
+            raw = c.compress(enc) + c.flush()
+            if len(raw) % 2 == 0 and raw[-1] == 0:
+                d = zlib.decompressobj(wbits=-zlib.MAX_WBITS)
+                if d.decompress(raw[:-1]) + d.flush() != enc:
+                    break
+    elif shape == "vrmix":
         ds.RetrieveAETitle = "AET"
         ds.PatientAge = "042Y"
         ds.Modality = "CT"
